@@ -26,10 +26,13 @@ pub trait Tr { type Assoc; }
 #[derive(Debug)] pub struct HoldsNot; impl Tr for HoldsNot { type Assoc = NotErr; }
 pub fn addr_dyn(e: &(dyn Error + 'static)) -> usize { e as *const dyn Error as *const u8 as usize }
 pub fn addr<T>(t: &T) -> usize { t as *const T as *const u8 as usize }
+pub fn which(a: Option<usize>, fields: &[usize]) -> String { match a { None => "null".to_string(),
+        Some(a) => match fields.iter().position(|f| *f == a) { Some(i) => format!("{}", i + 1), None => "\"other\"".to_string() } } }
 pub fn report(k: &str, src: Option<usize>, fields: &[usize]) {
-    let s = match src { None => "null".to_string(),
-        Some(a) => match fields.iter().position(|f| *f == a) { Some(i) => format!("{}", i + 1), None => "\"other\"".to_string() } };
-    println!("OBS {{\"k\": \"{}\", \"src\": {}}}", k, s);
+    println!("OBS {{\"k\": \"{}\", \"src\": {}}}", k, which(src, fields));
+}
+pub fn report2(k: &str, src: Option<usize>, bt: Option<usize>, fields: &[usize]) {
+    println!("OBS {{\"k\": \"{}\", \"src\": {}, \"bt\": {}}}", k, which(src, fields), which(bt, fields));
 }
 '''
 
@@ -43,7 +46,7 @@ def key_of(c):
         ",".join(f'{f["attr"]}:{f["name"]}:{f["ty"]}' for f in c["l"]) + "]"
 
 
-def render(c, key, src_field=None):
+def render(c, key, src_field=None, nightly=False):
     """module body for one layout. Generic fields get their own parameter; the one holding the source is
     instantiated with an error type, every other one with a type that is no Error."""
     l = c["l"]
@@ -97,6 +100,11 @@ def render(c, key, src_field=None):
         elif f["ty"] == "assoc":
             ann_list.append("HoldsErr" if src_field == i + 1 else "HoldsNot")
     ann = (": " + tyname + "<" + ", ".join(ann_list) + ">") if ann_list else ""
+    if nightly:
+        report_call = (f"let bt = core::error::request_ref::<Backtrace>(&v).map(|b| addr(b)); "
+                       f"report2({json.dumps(key)}, src, bt, &fields);")
+    else:
+        report_call = f"report({json.dumps(key)}, src, &fields);"
     return f"""use super::*;
 {decl}
 impl{gd} fmt::Display for {tyname}{g} {{ fn fmt(&self, f: &mut fmt::Formatter<'_>) -> fmt::Result {{ f.write_str("x") }} }}
@@ -104,7 +112,7 @@ pub fn run() {{
     let v{ann} = {ctor};
     let fields: Vec<usize> = match &v {{ {mpat} => vec![{addrs}]{extra} }};
     let src = Error::source(&v).map(addr_dyn);
-    report({json.dumps(key)}, src, &fields);
+    {report_call}
 }}"""
 
 
@@ -167,7 +175,7 @@ def run(chk, tier, seed, replay):
         mods = []
         for c in group:
             src = c["doc"][1] if c["doc"][0] == "field" else None
-            mods.append((c["_key"], render(c, c["_key"], src)))
+            mods.append((c["_key"], render(c, c["_key"], src, nightly=(tc == "nightly"))))
         log(f"[C09] building {name}: {len(mods)} layouts")
         obs2, failed, br = vlib.run_case_crate(name, mods, prelude=PRELUDE, toolchain=tc, crate_attrs=attrs,
                                                features=("error", "debug", "std"))
@@ -194,6 +202,15 @@ def run(chk, tier, seed, replay):
                               case={"layout": c["l"], "named": c["named"], "variant": c["isVariant"],
                                     "module": render(c, k, exp)},
                               expected={"source": exp}, observed={"source": got}, tags={"kind": "wrong_source"})
+            # extension beyond C09 (spec growth): which field provide() offers for a Backtrace request
+            if "bt" in o:
+                pv = c.get("provide", ["none"])
+                want_bt = pv[1] if pv[0] == "field" else None
+                ext = chk.notes.setdefault("extension_provide", {"checked": 0, "mismatches": []})
+                ext["checked"] += 1
+                if o["bt"] != want_bt and pv[0] != "from_source":
+                    ext["mismatches"].append({"layout": k, "expected": pv, "observed": o["bt"]})
+                    log(f"EXTENSION-MISMATCH (not a C09 verdict) provide(): {k}: expected {pv}, observed {o['bt']}")
             if len(chk.cov["samples"]) < 4 and exp:
                 chk.sample({"layout": k, "expected_source_field": exp, "observed": got, "toolchain": tc or "stable"})
         chk.cov["traces_validated_against_impl"] += len(group)
